@@ -93,6 +93,18 @@ class ClassInfo:
                 ci.outer = self
                 self.nested[st.name] = ci
 
+    def self_annotations(self) -> Dict[str, ast.AST]:
+        """`self.x: T = ...` statements in the class's own methods (attributes declared in __init__ and friends)."""
+        if not hasattr(self, "_self_ann"):
+            out = {}
+            for m in self.methods.values():
+                for n in ast.walk(m.node):
+                    if isinstance(n, ast.AnnAssign) and isinstance(n.target, ast.Attribute) and isinstance(n.target.value, ast.Name) \
+                            and n.target.value.id == "self":
+                        out.setdefault(n.target.attr, n.annotation)
+            self._self_ann = out
+        return self._self_ann
+
     @property
     def key(self):
         return f"{self.module.relpath}::{self.name}"
